@@ -296,3 +296,104 @@ def run_claim_release(ctx: Ctx):
         I.class_invs.update(saved)
         I.overrides.pop('dznpy.ast_view.find_fqn', None)
         I.overrides.pop(f'{PR}.find_fqn', None)
+
+
+def run_portitf(ctx: Ctx):
+    """C02 C10 C12: create_cpp_portitf for an arbitrary exposed port (any names, any namespace depths)."""
+    I = ctx.interp
+    ghostlib.install(I)
+    I.model_strings_break_free = True
+    pr = I.load_module(PR)
+    cm = I.load_module('dznpy.adv_shell.common')
+    cg = I.load_module('dznpy.cpp_gen')
+    tg = I.load_module('dznpy.text_gen')
+    sc = I.load_module('dznpy.scoping')
+    at = I.load_module('dznpy.ast')
+    ty = I.load_module('dznpy.adv_shell.types')
+    spec = I.load_module('specs.wiring_unbounded')
+    NS = sc.globals['NamespaceIds']
+
+    def inv_name(interp, path, v):
+        a = interp.sorts.accessor(v.cls, 'name')(v.expr)
+        return ops.with_facts(ops.is_ident(a))
+    saved = dict(I.class_invs)
+    I.class_invs['dznpy.ast.Port'] = [inv_name]
+    I.class_invs['dznpy.scoping.NamespaceIds'] = [ns_inv]
+
+    def mk(p, mc):
+        dzn = symobj.fresh_value(I, p, TypeDesc('cls', cm.globals['DznPortItf']), 'in_dzn',
+                                 opt_choice=lambda n: mc if n.endswith('multiclient') else True)
+        enc = symobj.fresh_value(I, p, TypeDesc('cls', cm.globals['CppEncapsulee']), 'in_enc')
+        z = ops.to_zstr(enc.fields['member_var'].fields['name'])
+        I.break_free_syms.add(z.get_id())
+        p.assume(ops.with_facts(ops.is_ident(z)))
+        zs = z3.String('in_shell')
+        I.break_free_syms.add(zs.get_id())
+        p.assume(ops.with_facts(ops.is_ident(zs)))
+        scope = I.call(cg.globals['Struct'], [], {'name': ops.mkstr([zs])}, p)
+        sfns = I.fresh_dt(NS, 'in_sfns', p)
+        mcs = ObjV(tg.globals['GeneratedContent'], {'filename': 'f.hh', 'contents': '', 'namespace': I.fresh_dt(NS, 'in_mcsns', p)})
+        sfs = ObjV(cm.globals['SupportFiles'], {'multi_client_selector': mcs})
+        port, itf, sem = (dzn.fields[n] for n in ('port', 'interface', 'semantics'))
+        I.apply_class_invs(port, p)
+        fqn = i_getattr(I, itf, 'fqn', p)
+        p.assume(z3.Length(I.sorts.accessor(fqn.cls, 'items')(fqn.expr)) > 0)      # an interface has a name
+        if mc:
+            # invariant of DznPortItf (its __post_init__) and of create_dzn_elements: only MTS provides ports
+            p.assume(sem.expr == I.sorts.enum_const(ty.globals['RuntimeSemantics'].members['MTS']))
+            d = i_getattr(I, port, 'direction', p)
+            p.assume(d.expr == I.sorts.enum_const(at.globals['PortDirection'].members['PROVIDES']))
+        a = [dzn, scope, sfns, enc, sfs]
+        return a, a
+
+    f = I.get_function(f'{PR}.create_cpp_portitf')
+    view = spec.globals['portitf_view']
+
+    def impl(i, p, a, k):
+        r = i.call_function(f, a, k, p)
+        return i.call_function(view, [r, a[0], a[1]], {}, p)
+    try:
+        ctx.functions[f'{PR}.create_cpp_portitf'] = 'proved (any port / interface names and namespace depths)'
+        for mc in (False, True):
+            refines(ctx, f'processing.create_cpp_portitf{".mc" if mc else ""}', f'{PR}.create_cpp_portitf', impl,
+                    lambda i, p, a, k: i.call_function(spec.globals['portitf_expectation'], a, k, p),
+                    lambda p, mc=mc: mk(p, mc), witness=None,
+                    text='accessor of an exposed port: strict-port type by semantics, target object, boundary member')
+    finally:
+        I.class_invs.clear()
+        I.class_invs.update(saved)
+
+
+def run_facilities(ctx: Ctx):
+    """C09: create_facilities / create_facilities_check_fn for both origins and any shell name."""
+    I = ctx.interp
+    ghostlib.install(I)
+    I.model_strings_break_free = True
+    pr = I.load_module(PR)
+    cm = I.load_module('dznpy.adv_shell.common')
+    cg = I.load_module('dznpy.cpp_gen')
+    spec = I.load_module('specs.wiring_unbounded')
+    FO = cm.globals['FacilitiesOrigin']
+
+    def mk(p, origin, swap):
+        zs = z3.String('in_shell')
+        I.break_free_syms.add(zs.get_id())
+        p.assume(ops.with_facts(ops.is_ident(zs)))
+        scope = I.call(cg.globals['Struct'], [], {'name': ops.mkstr([zs])}, p)
+        a = [scope, FO.members[origin]] if swap else [FO.members[origin], scope]
+        return a, a
+
+    for fname, vname, sname, swap in (('create_facilities', 'facilities_view', 'facilities_expectation', False),
+                                      ('create_facilities_check_fn', 'facilities_check_view',
+                                       'facilities_check_expectation', True)):
+        f = I.get_function(f'{PR}.{fname}')
+        ctx.functions[f'{PR}.{fname}'] = 'proved (both origins, any shell name)'
+
+        def impl(i, p, a, k, f=f, vname=vname, swap=swap):
+            r = i.call_function(f, a, k, p)
+            return i.call_function(spec.globals[vname], [r, a[0] if swap else a[1]], {}, p)
+        for origin in ('CREATE', 'IMPORT'):
+            refines(ctx, f'processing.{fname}.{origin}', f'{PR}.{fname}', impl,
+                    lambda i, p, a, k, sname=sname: i.call_function(spec.globals[sname], a, k, p),
+                    lambda p, origin=origin, swap=swap: mk(p, origin, swap), witness=None,
+                    text=f'{fname}: members, accessor and checks follow the configured facilities origin')
